@@ -222,7 +222,7 @@ func runC09(c *ctx) {
 	c.Rule = "ellipsis-free templates over all node kinds (nesting <= 6, variables in scalar slots, list variables, ASCII variables with bounds) x assignments (total, partial, empty, with unknown keys, values of every accepted Go type) : FillVariables must equal direct construction with the values in place (String, Variables, Size, ToBytes), equal the model substitution, leave remaining variables in order, refuse exactly when the constructor refuses (out-of-domain values of 12 kinds), compose over every set partition of <= 4 keys (random ordered splits beyond), and keep the message header while filling. non-trivial = at least one key names a variable of the template; distinct by (template, keys, split, bad values)"
 	c.Assume = []string{"fill-in values are variable-free (as the property quantifies)", "direct construction = the repository's own factories called with the values in place"}
 	badKinds := []string{"neg", "big", "huge", "float", "nan", "str-nonascii", "str-long", "int-for-ascii", "struct", "nil", "bool"}
-	n := c.pick(20000, 500000)
+	n := c.pick(50000, 500000)
 	c.parallel(n, func(i int, r *rng.R) {
 		g := gen.New(r, gen.Profile{MaxDepth: 1 + r.Intn(6), Vars: true, Budget: 300, MaxKids: 4, MaxElems: 5})
 		tpl := g.Tree()
